@@ -19,7 +19,7 @@ CONSTANTS MaxFeatures,     \* optional features per program
           DevF3, DevF4, DevF5, DevSkip,
           Wrappers         \* {"cvxpy"} or {"cvxpy", "mosek"}
 LmiSize(code) == CASE code = "L1" -> 1 [] code = "S3" -> 3 [] OTHER -> 2
-ConsCodes == {"pi", "pe", "pg", "pm", "pd", "fi", "ci"}
+ConsCodes == {"pi", "pe", "pg", "pm", "pd", "fi", "ci", "dup", "dupf"}   \* dup: the SAME constraint object declared twice
 LmiCodes == {"S2", "D2", "L1", "N2", "S3", "F2"}
 ClassLmis(c) == IF c \in {4, 6, 7} THEN 1 ELSE IF c = 8 THEN 2 ELSE 0
 VARIABLES prog, solves, phase, epoch, sent, native, dualpos, cache, nClassLmi, nPartRows, hist
@@ -47,15 +47,16 @@ Feature ==
 Rep(x, n) == [i \in 1..n |-> x]
 Sc(src) == [src |-> src, k |-> "sc", n |-> 1]
 Lm(src, n) == [src |-> src, k |-> "lmi", n |-> n]
-PepCons(p) == SelectSeq(p.ucons, LAMBDA c : c \in {"pi", "pe", "pg", "pm", "pd"})
-FunCons(p) == SelectSeq(p.ucons, LAMBDA c : c \in {"fi", "ci"})
+PepCons(p) == SelectSeq(p.ucons, LAMBDA c : c \in {"pi", "pe", "pg", "pm", "pd", "dup", "dupf"})
+DupPep(p) == SelectSeq(p.ucons, LAMBDA c : c = "dup")
+FunCons(p) == SelectSeq(p.ucons, LAMBDA c : c \in {"fi", "ci", "dupf"})
 PepLmis(p) == SelectSeq(p.lmis, LAMBDA c : c # "F2")
 FunLmis(p) == SelectSeq(p.lmis, LAMBDA c : c = "F2")
 ClassRows == 2        \* abstract: the number of class rows is decided by the class (C04), not here
 SentList(p, edits, classLmis, partRows) ==
      Rep(Sc("metric"), p.metrics + edits.metric)
   \o <<Sc("pep")>>                                                   \* the initial condition
-  \o [i \in 1..Len(PepCons(p)) |-> Sc("pep")]
+  \o [i \in 1..Len(PepCons(p)) |-> Sc("pep")] \o [i \in 1..Len(DupPep(p)) |-> Sc("pep")]
   \o [i \in 1..Len(PepLmis(p)) |-> Lm("pep", LmiSize(PepLmis(p)[i]))] \o Rep(Lm("pep", 2), edits.lmi)
   \o Rep(Sc("class"), ClassRows) \o Rep(Lm("class", 2), classLmis)
   \o [i \in 1..Len(FunCons(p)) |-> Sc("fun")] \o [i \in 1..Len(FunLmis(p)) |-> Lm("fun", 2)]
@@ -75,7 +76,7 @@ Walk(s, k, counter) == IF k > Len(s) THEN <<>> ELSE
 Edits == [metric |-> Cardinality({i \in 1..Len(solves) : solves[i].edit = "metric"}),
           lmi |-> Cardinality({i \in 1..Len(solves) : solves[i].edit = "lmi"})]
 SolveOpts == [wrapper : Wrappers, mode : {"dual", "primal"}, heur : {"none", "trace", "logdet1", "logdet2"},
-              edit : {"none", "init", "metric", "lmi", "block", "infeasible", "feasible-again"}, verbose : {0, 1}]
+              edit : {"none", "init", "metric", "lmi", "block", "tsample", "infeasible", "feasible-again"}, verbose : {0, 1}]
 Infeasible(sv) == Cardinality({i \in 1..Len(sv) : sv[i].edit = "infeasible"}) > Cardinality({i \in 1..Len(sv) : sv[i].edit = "feasible-again"})
 Solve ==
   /\ Len(solves) < MaxSolves
@@ -83,6 +84,7 @@ Solve ==
        /\ (o.edit # "none" => Len(solves) >= 1)                      \* edits happen between solves
        /\ (o.edit = "feasible-again" => Infeasible(solves))
        /\ (o.edit = "infeasible" => ~Infeasible(solves))
+       /\ (o.edit = "tsample" => prog.cls = 8 /\ \A i \in 1..Len(solves) : solves[i].edit # "tsample")   \* sample the adjoint once more
        /\ (o.edit = "block" => prog.part = 1 /\ \A i \in 1..Len(solves) : solves[i].edit # "block")   \* decompose one more point
        /\ (o.verbose = 1 => o.heur = "none" /\ o.mode = "dual")
        /\ LET sv == Append(solves, o)
